@@ -97,6 +97,8 @@ type NodeCfg struct {
 	SnapshotThreshold uint64
 	TrailingLogs      uint64
 	Timeout           time.Duration // raft heartbeat/election/lease (default 300ms)
+	SnapChanCap       int           // capacity of the channel insertions hand their snapshots to (default 65536, as the server)
+	SnapConsumerDelay time.Duration // the consumer of that channel takes this long per snapshot
 	Hook              func(int64, string, []*storage.Mutation)
 }
 
@@ -109,6 +111,8 @@ type Node struct {
 	done   chan struct{}
 	Snaps  int64 // snapshots emitted on the channel
 	closed bool
+	snapMu sync.Mutex
+	SnapVs []uint64 // versions of the snapshots handed off, in order of arrival
 }
 
 func (n *Node) RaftAddr() string { return fmt.Sprintf("127.0.0.1:%d", n.Cfg.Port) }
@@ -141,10 +145,19 @@ func StartNode(cfg NodeCfg) (*Node, error) {
 	opts.RaftLeaseTimeout = cfg.Timeout
 	opts.RaftCommitTimeout = 20 * time.Millisecond
 	opts.RaftApplyTimeout = 10 * time.Second
-	n := &Node{Cfg: cfg, Store: st, Raw: raw, snapCh: make(chan *protocol.Snapshot, 1<<16), done: make(chan struct{})}
+	if cfg.SnapChanCap == 0 {
+		cfg.SnapChanCap = 1 << 16
+	}
+	n := &Node{Cfg: cfg, Store: st, Raw: raw, snapCh: make(chan *protocol.Snapshot, cfg.SnapChanCap), done: make(chan struct{})}
 	go func() {
-		for range n.snapCh {
+		for s := range n.snapCh {
 			atomic.AddInt64(&n.Snaps, 1)
+			if cfg.SnapConsumerDelay > 0 {
+				n.snapMu.Lock()
+				n.SnapVs = append(n.SnapVs, s.Version)
+				n.snapMu.Unlock()
+				time.Sleep(cfg.SnapConsumerDelay)
+			}
 		}
 		close(n.done)
 	}()
@@ -377,4 +390,12 @@ func EventDigest(ev []byte) []byte { return HasherF().Do(ev) }
 func ToBalloonSnap(s *balloon.Snapshot) *balloon.Snapshot {
 	c := *s
 	return &c
+}
+
+// HandedOff returns the versions of the snapshots the node handed to its snapshots channel so far
+// (recorded only when SnapConsumerDelay > 0).
+func (n *Node) HandedOff() []uint64 {
+	n.snapMu.Lock()
+	defer n.snapMu.Unlock()
+	return append([]uint64{}, n.SnapVs...)
 }
